@@ -864,9 +864,10 @@ def check_C17(tier, seed):
     # design level: best-first traversal of every small tree over every small point set, all pop orders among equal keys
     sets = [("square", 2, True), ("line4", 1, True), ("skew", 2, True), ("cube5", 3, False)]
     if tier == "thorough":
-        sets += [("lshape", 2, True), ("cube5", 3, True), ("square", 2, False)]
+        # (3D periodic: 27 copies of every point with many equal keys - two points are 1.8M distinct states, 5 min)
+        sets += [("lshape", 2, True), ("cube2", 3, True), ("cube4", 3, False), ("square", 2, False)]
     for (ps, dim, per) in sets:
-        for qi in ([1] if tier == "quick" else [1, 2]):
+        for qi in ([1] if tier == "quick" or ps == "cube2" else [1, 2]):
             cfg = os.path.join(OUT, "tlc", "vnn_%s_%d.cfg" % (ps, qi))
             write_cfg(cfg, constants=dict(Points=("<-", "MCPoints"), QI=qi, GW=("<-", "MCGW"), Dim=dim, Per=per,
                                           Trees=("<-", "MCTrees"), KeyMode="clamp", PSet=ps),
